@@ -81,7 +81,7 @@ struct Event { uint64_t at, seq; int conn; bool operator>(const Event& o) const 
 }
 
 void exec_seq(const J& plan) {
-  sa_reset(knobs_alloc(plan));
+  if (!g_task_mode) sa_reset(knobs_alloc(plan));
   const J& kn = plan.at("knobs");
   int buf_policy = (int)kn.getu("buf"); bool empty_call = kn.getu("empty_call") != 0;
   const J& jc = plan.at("conns");
@@ -162,8 +162,8 @@ void exec_seq(const J& plan) {
     if (!failed() && c.off != off) fail("C14", "sequence-end-offset", where + fmt(": receiver stopped at offset %llu, expected %llu", (unsigned long long)c.off, (unsigned long long)off));
   }
   stat_add("items_received", total_items); stat_add("items_decoded_with_suffix", with_suffix); stat_add("failing_load_calls", failing);
-  sa_check_integrity();
-  if (!failed() && sa_live_count() != 0) fail("C04,C13,C05", "sequence-run-leaves-memory", fmt("%llu block(s) remain after all connections finished", (unsigned long long)sa_live_count()));
+  if (!g_task_mode) sa_check_integrity();
+  if (!failed() && sa_live_count_mine() != 0) fail("C04,C13,C05", "sequence-run-leaves-memory", fmt("%llu block(s) remain after all connections finished", (unsigned long long)sa_live_count()));
   if (g_run.prop == "C14") g_run.nontrivial = total_items >= 2 && with_suffix >= 1;
   else if (g_run.prop == "C05") g_run.nontrivial = failing >= 1;
   else g_run.nontrivial = sa_total_requests() >= 1;
